@@ -311,3 +311,101 @@ Definition chk_alignment (c : list (Z * option Z * option Z) * list (Z * option 
   let '(ls, al) := c in
   list_eqb entry_eqb (alignment_of (map mk_line ls)) (alignment_of (map mk_line al)) &&
   list_eqb line_eqb (lines_of (alignment_of (map mk_line ls))) (map mk_line al).
+
+(* ------------------------------------------------------------------ *)
+(* 6. performed notes: one leg  save_match (ppq, mpq) -> file -> load_match            *)
+(*    exportmatch.py: matchfile_from_alignment (perf_info), importmatch.py:            *)
+(*    performed_part_from_match                                                        *)
+
+(* a performed note as given to save_match: pitch, velocity, onset and offset in seconds and,
+   when it was loaded from a match or MIDI file, the ticks of the clock it was LOADED with *)
+Record pnote := mkP { p_pitch : Z; p_vel : Z; p_on : Q; p_off : Q; p_stored : option (Z * Z) }.
+(* the played-note part of a line of the file *)
+Record fnote := mkF { f_pitch : Z; f_vel : Z; f_on : Z; f_off : Z }.
+
+(* exporter: the seconds are converted with the clock asked of save_match (the one written in
+   the header); stored ticks are not looked at *)
+Definition exp_note (ppq mpq : Z) (p : pnote) : fnote :=
+  mkF (p_pitch p) (p_vel p) (sec_to_tick ppq mpq (p_on p)) (sec_to_tick ppq mpq (p_off p)).
+(* importer: ticks of the file and the header's clock -> seconds; the ticks are kept *)
+Definition imp_note (ppq mpq : Z) (f : fnote) : pnote :=
+  mkP (f_pitch f) (f_vel f) (tick_to_sec ppq mpq (f_on f)) (tick_to_sec ppq mpq (f_off f))
+      (Some (f_on f, f_off f)).
+Definition leg (ppq mpq : Z) (p : pnote) : pnote := imp_note ppq mpq (exp_note ppq mpq p).
+
+(* half a tick of the clock, in seconds *)
+Definition half_tick (ppq mpq : Z) : Q := inject_Z mpq / inject_Z (2 * (1000000 * ppq)).
+
+(* ------------------------------------------------------------------ *)
+(* 7. pedal stream                                                      *)
+
+Definition ctrl := (Z * Q * Z)%type.   (* controller number, seconds, value *)
+Definition ped := (Z * Z * Z)%type.    (* controller number (64 sustain, 67 soft), tick, value *)
+Definition ped_num (e : ped) : Z := fst (fst e).
+Definition ped_tick (e : ped) : Z := snd (fst e).
+Definition ped_val (e : ped) : Z := snd e.
+Definition ctrl_num (c : ctrl) : Z := fst (fst c).
+
+Definition is_pedal (n : Z) : bool := (n =? 64) || (n =? 67).
+
+(* exporter: only controllers 64 and 67 give a line; time -> tick of the file's clock *)
+Definition ped_of (ppq mpq : Z) (c : ctrl) : list ped :=
+  let '(n, t, v) := c in if is_pedal n then [(n, sec_to_tick ppq mpq t, v)] else [].
+
+(* pedal_lines.sort(key=Time): stable *)
+Fixpoint ins_tick (e : ped) (l : list ped) : list ped :=
+  match l with
+  | [] => [e]
+  | x :: r => if ped_tick e <=? ped_tick x then e :: l else x :: ins_tick e r
+  end.
+Fixpoint sort_tick (l : list ped) : list ped :=
+  match l with [] => [] | x :: r => ins_tick x (sort_tick r) end.
+
+Definition ped_lines (ppq mpq : Z) (cs : list ctrl) : list ped :=
+  sort_tick (flat_map (ped_of ppq mpq) cs).
+
+(* load_matchfile keeps the first occurrence of every line text; the text of a pedal line is
+   its name, tick and value *)
+Definition ped_eqb (a b : ped) : bool :=
+  (ped_num a =? ped_num b) && (ped_tick a =? ped_tick b) && (ped_val a =? ped_val b).
+Fixpoint pmem (x : ped) (l : list ped) : bool :=
+  match l with [] => false | y :: r => ped_eqb x y || pmem x r end.
+Fixpoint ped_first_aux (seen : list ped) (l : list ped) : list ped :=
+  match l with
+  | [] => []
+  | x :: r => if pmem x seen then ped_first_aux seen r else x :: ped_first_aux (x :: seen) r
+  end.
+Definition ped_read (l : list ped) : list ped := ped_first_aux [] l.
+
+(* performed_part_from_match: controls = sustain lines ++ soft lines, ticks -> seconds *)
+Definition ped_sec (ppq mpq : Z) (e : ped) : ctrl :=
+  (ped_num e, tick_to_sec ppq mpq (ped_tick e), ped_val e).
+Definition num_is (n : Z) (e : ped) : bool := ped_num e =? n.
+Definition cnum_is (n : Z) (c : ctrl) : bool := ctrl_num c =? n.
+Definition ped_load (ppq mpq : Z) (l : list ped) : list ctrl :=
+  map (ped_sec ppq mpq) (filter (num_is 64) l ++ filter (num_is 67) l).
+
+Definition ped_roundtrip (ppq mpq : Z) (cs : list ctrl) : list ctrl :=
+  ped_load ppq mpq (ped_read (ped_lines ppq mpq cs)).
+
+(* ------------------------------------------------------------------ *)
+(* 8. checkers for sections 6 and 7                                     *)
+
+Definition q_near (a b : Q) : bool := Qle_bool (Qabs.Qabs (a - b)) (1 # 1000000000).
+
+(* (ppq, mpq, note given to save_match, note loaded: pitch, velocity, ticks, seconds) *)
+Definition chk_pnote (c : Z * Z * (Z * Z * Q * Q * option (Z * Z)) * (Z * Z * Z * Z * Q * Q)) : bool :=
+  let '(ppq, mpq, (pi, ve, on, off, st), (pi', ve', kon, koff, son, soff)) := c in
+  let r := leg ppq mpq (mkP pi ve on off st) in
+  (p_pitch r =? pi') && (p_vel r =? ve') &&
+  match p_stored r with
+  | Some (a, b) => (a =? kon) && (b =? koff)
+  | None => false
+  end && q_near son (p_on r) && q_near soff (p_off r).
+
+Definition chk_pedal (c : Z * Z * list ctrl * list ctrl) : bool :=
+  let '(ppq, mpq, cs, got) := c in
+  forall2b (fun (m g : ctrl) =>
+              let '(n, t, v) := m in let '(n', t', v') := g in
+              (n =? n') && (v =? v') && q_near t' t)
+           (ped_roundtrip ppq mpq cs) got.
